@@ -1,7 +1,513 @@
-(* C45 — proofs. *)
-From Coq Require Import List NArith ZArith Arith Bool Lia.
-From Verif.C45 Require Import Model Spec.
+(* C45 — invariant of the ring, refinement to the abstract member map, characterisation of Lookup. *)
+From Coq Require Import List NArith ZArith Arith Bool Lia Sorted Permutation ZifyN ZifyNat ZifyBool.
+From Verif.C45 Require Import Model Order.
 Import ListNotations.
+Ltac Zify.zify_post_hook ::= Z.div_mod_to_equations.
 
-Lemma key_eqb_refl : forall a, key_eqb a a = true.
-Proof. induction a; simpl; auto. rewrite N.eqb_refl. auto. Qed.
+(* ---------- sets of strings ---------- *)
+Lemma smem_In : forall k s, smem k s = true <-> In k s.
+Proof.
+  unfold smem. intros. rewrite existsb_exists. split.
+  - intros [x [Hx E]]. apply key_eqb_eq in E. subst. auto.
+  - intro. exists k. split; auto. apply key_eqb_refl.
+Qed.
+
+Lemma smem_nIn : forall k s, smem k s = false <-> ~ In k s.
+Proof.
+  intros. rewrite <- smem_In. destruct (smem k s); intuition congruence.
+Qed.
+
+Lemma sdel_In : forall x k s, In x (sdel k s) <-> In x s /\ x <> k.
+Proof.
+  intros. unfold sdel. rewrite filter_In. rewrite negb_true_iff, key_eqb_neq.
+  split; intros [A B]; split; auto.
+Qed.
+
+Lemma sadd_In : forall x k s, In x (sadd k s) <-> x = k \/ In x s.
+Proof.
+  intros. unfold sadd. destruct (smem k s) eqn:E.
+  - apply smem_In in E. split; auto. intros [->|H]; auto.
+  - simpl. split; intros [H|H]; auto.
+Qed.
+
+Lemma NoDup_filter' : forall (A : Type) (f : A -> bool) l, NoDup l -> NoDup (filter f l).
+Proof.
+  induction l as [|x l IH]; simpl; intro H; auto.
+  inversion H; subst. destruct (f x); auto. constructor; auto.
+  rewrite filter_In. tauto.
+Qed.
+
+Lemma sadd_NoDup : forall k s, NoDup s -> NoDup (sadd k s).
+Proof.
+  intros. unfold sadd. destruct (smem k s) eqn:E; auto.
+  constructor; auto. apply smem_nIn. auto.
+Qed.
+
+Lemma bool_eq_iff : forall a b : bool, (a = true <-> b = true) -> a = b.
+Proof. intros [] [] [H1 H2]; auto. symmetry; auto. Qed.
+
+Lemma smem_sdel : forall k k0 d, smem k (sdel k0 d) = negb (key_eqb k k0) && smem k d.
+Proof.
+  intros. apply bool_eq_iff. rewrite andb_true_iff, negb_true_iff, key_eqb_neq, !smem_In, sdel_In. tauto.
+Qed.
+
+Lemma smem_sadd : forall k k0 d, smem k (sadd k0 d) = key_eqb k k0 || smem k d.
+Proof.
+  intros. apply bool_eq_iff. rewrite orb_true_iff, key_eqb_eq, !smem_In, sadd_In. tauto.
+Qed.
+
+Lemma Permutation_filter' : forall (A : Type) (f : A -> bool) l l',
+  Permutation l l' -> Permutation (filter f l) (filter f l').
+Proof.
+  induction 1; simpl; auto.
+  - destruct (f x); auto.
+  - destruct (f x), (f y); auto. apply perm_swap.
+  - eapply Permutation_trans; eauto.
+Qed.
+
+Lemma bisect_bounds : forall fuel es p i j,
+  (i <= j)%nat -> (j <= length es)%nat ->
+  (i <= bisect fuel es p i j <= j)%nat.
+Proof.
+  induction fuel as [|f IH]; intros es p i j Hij Hj; simpl; [lia|].
+  destruct (Nat.ltb i j) eqn:L; [|lia].
+  apply Nat.ltb_lt in L.
+  assert (i <= Nat.div2 (i + j) < j)%nat as Hh by (rewrite Nat.div2_div; lia).
+  destruct (nth_error es (Nat.div2 (i + j))) as [e|]; [|lia].
+  destruct (N.ltb (e_hash e) p).
+  - specialize (IH es p (S (Nat.div2 (i + j))) j). lia.
+  - specialize (IH es p i (Nat.div2 (i + j))). lia.
+Qed.
+
+Lemma search_le : forall es p, (search es p <= length es)%nat.
+Proof. intros. unfold search. pose proof (bisect_bounds (S (length es)) es p 0 (length es)). lia. Qed.
+
+Section P.
+  Variable hash : list N -> N.
+  Variable V : Type.
+  Variable zeroV : V.
+
+  Notation ring := (ring V).
+  Notation insert := (insert hash V).
+  Notation remove := (remove V).
+  Notation lookup := (lookup hash V zeroV).
+  Notation step := (step hash V zeroV).
+  Notation run := (run hash V zeroV).
+  Notation vnodes := (vnodes hash).
+  Notation pick_key := (pick_key hash).
+  Notation mget := (mget V).
+  Notation mset := (mset V).
+  Notation mhas := (mhas V).
+
+  Definition keys (m : list (key * V)) : list key := map fst m.
+
+  (* ---------- association lists ---------- *)
+  Lemma mget_keys : forall m k, mget m k <> None <-> In k (keys m).
+  Proof.
+    induction m as [|[k' v] m IH]; simpl; intro k.
+    - split; auto.
+    - destruct (key_eqb k k') eqn:E.
+      + apply key_eqb_eq in E. subst. split; auto. discriminate.
+      + apply key_eqb_neq in E. rewrite IH. split; auto. intros [H|H]; auto. congruence.
+  Qed.
+
+  Lemma mget_none : forall m k, mget m k = None <-> ~ In k (keys m).
+  Proof.
+    intros. rewrite <- mget_keys. destruct (mget m k); intuition congruence.
+  Qed.
+
+  Lemma mget_mset : forall m k v k', mget (mset m k v) k' = if key_eqb k' k then Some v else mget m k'.
+  Proof.
+    induction m as [|[k0 v0] m IH]; simpl; intros k v k'; auto.
+    destruct (key_eqb k k0) eqn:E; simpl.
+    - apply key_eqb_eq in E. subst. destruct (key_eqb k' k0); auto.
+    - rewrite IH. destruct (key_eqb k' k0) eqn:E2; auto.
+      apply key_eqb_eq in E2. subst. rewrite key_eqb_sym, E. auto.
+  Qed.
+
+  Lemma keys_mset_has : forall m k v, In k (keys m) -> keys (mset m k v) = keys m.
+  Proof.
+    induction m as [|[k0 v0] m IH]; simpl; intros k v H; [contradiction|].
+    destruct (key_eqb k k0) eqn:E; simpl; auto.
+    f_equal. apply IH. destruct H as [H|H]; auto. subst. rewrite key_eqb_refl in E. discriminate.
+  Qed.
+
+  Lemma keys_mset_new : forall m k v, ~ In k (keys m) -> keys (mset m k v) = keys m ++ [k].
+  Proof.
+    induction m as [|[k0 v0] m IH]; simpl; intros k v H; auto.
+    destruct (key_eqb k k0) eqn:E; simpl.
+    - apply key_eqb_eq in E. subst. tauto.
+    - f_equal. apply IH. tauto.
+  Qed.
+
+  Lemma mget_filter : forall (f : key -> bool) m k,
+    mget (filter (fun kv => f (fst kv)) m) k = if f k then mget m k else None.
+  Proof.
+    induction m as [|[k0 v0] m IH]; simpl; intro k.
+    - destruct (f k); auto.
+    - destruct (f k0) eqn:F; simpl; rewrite IH.
+      + destruct (key_eqb k k0) eqn:E; auto. apply key_eqb_eq in E. subst. rewrite F. auto.
+      + destruct (key_eqb k k0) eqn:E; auto. apply key_eqb_eq in E. subst. rewrite F. auto.
+  Qed.
+
+  Lemma keys_filter : forall (f : key -> bool) m,
+    keys (filter (fun kv => f (fst kv)) m) = filter f (keys m).
+  Proof.
+    induction m as [|[k0 v0] m IH]; simpl; auto.
+    destruct (f k0); simpl; rewrite IH; auto.
+  Qed.
+
+  (* ---------- virtual nodes ---------- *)
+  Lemma vnodes_key : forall R k e, In e (vnodes R k) -> e_key e = k.
+  Proof. unfold Model.vnodes. intros R k e H. apply in_map_iff in H. destruct H as [i [<- _]]. auto. Qed.
+
+  Lemma filter_vnodes : forall (f : key -> bool) R k,
+    filter (fun e => f (e_key e)) (vnodes R k) = if f k then vnodes R k else [].
+  Proof.
+    intros. unfold Model.vnodes. induction (seq 0 R) as [|i l IH]; simpl.
+    - destruct (f k); auto.
+    - rewrite IH. destruct (f k); auto.
+  Qed.
+
+  Lemma filter_flat_vnodes : forall (f : key -> bool) R ks,
+    filter (fun e => f (e_key e)) (flat_map (vnodes R) ks) = flat_map (vnodes R) (filter f ks).
+  Proof.
+    induction ks as [|k ks IH]; simpl; auto.
+    rewrite filter_app, IH, filter_vnodes. destruct (f k); auto.
+  Qed.
+
+  Lemma vnodes_nonempty : forall R k, (1 <= R)%nat -> vnodes R k <> [].
+  Proof. intros R k H. unfold Model.vnodes. destruct R; [lia|]. simpl. discriminate. Qed.
+
+  Definition canon (R : nat) (ks : list key) : list entry := isort (flat_map (vnodes R) ks).
+
+  Lemma canon_perm : forall R ks ks', Permutation ks ks' -> canon R ks = canon R ks'.
+  Proof.
+    intros. unfold canon. apply sorted_perm_unique; try apply isort_sorted.
+    rewrite !isort_perm. apply Permutation_flat_map. auto.
+  Qed.
+
+  Lemma canon_In : forall R ks e, In e (canon R ks) -> In (e_key e) ks.
+  Proof.
+    intros R ks e H. unfold canon in H. apply (Permutation_in _ (isort_perm _)) in H.
+    apply in_flat_map in H. destruct H as [k [Hk He]]. apply vnodes_key in He. subst. auto.
+  Qed.
+
+  Lemma canon_nonempty : forall R ks, (1 <= R)%nat -> ks <> [] -> canon R ks <> [].
+  Proof.
+    intros R ks HR Hks E. destruct ks as [|k ks]; [congruence|].
+    assert (Permutation (flat_map (vnodes R) (k :: ks)) []) as P by (rewrite <- E; symmetry; apply isort_perm).
+    apply Permutation_sym, Permutation_nil in P. simpl in P. apply app_eq_nil in P. destruct P as [P _].
+    eapply vnodes_nonempty; eauto.
+  Qed.
+
+  (* ---------- the probe loop never indexes out of range on a non-empty table ---------- *)
+  Lemma probe_fold_ok : forall es k is bd bi,
+    (bi < length es)%nat ->
+    exists bd' bi', fold_left (probe_step hash es k) is (Some (bd, bi)) = Some (bd', bi') /\ (bi' < length es)%nat.
+  Proof.
+    induction is as [|i is IH]; intros bd bi Hbi; simpl.
+    - eauto.
+    - pose proof (search_le es (salted hash k i)) as Hs.
+      remember (if Nat.eqb (search es (salted hash k i)) (length es) then 0%nat else search es (salted hash k i)) as idx.
+      assert (idx < length es)%nat as Hidx.
+      { subst idx. destruct (Nat.eqb (search es (salted hash k i)) (length es)) eqn:E; [lia|].
+        apply Nat.eqb_neq in E. lia. }
+      destruct (nth_error es idx) as [e|] eqn:Hn; [|apply nth_error_None in Hn; lia].
+      destruct (N.ltb ((e_hash e + two64 - salted hash k i) mod two64) bd); apply IH; auto.
+  Qed.
+
+  Lemma pick_key_ok : forall P es k, es <> [] -> exists e, In e es /\ pick_key P es k = Some (e_key e).
+  Proof.
+    intros P es k Hne. unfold Model.pick_key.
+    assert (0 < length es)%nat as H0 by (destruct es; [congruence|simpl; lia]).
+    destruct (probe_fold_ok es k (seq 0 P) (two64 - 1)%N 0%nat H0) as [bd' [bi' [-> Hb]]].
+    destruct (nth_error es bi') as [e|] eqn:Hn; [|apply nth_error_None in Hn; lia].
+    exists e. split; auto. eapply nth_error_In; eauto.
+  Qed.
+
+  (* ---------- abstraction and invariant ---------- *)
+  Definition live (r : ring) (k : key) : option V :=
+    if smem k (r_deleted V r) then None else mget (r_members V r) k.
+  Definition lkeys (r : ring) : list key :=
+    filter (fun k => negb (smem k (r_deleted V r))) (keys (r_members V r)).
+
+  Record Inv (r : ring) : Prop := {
+    i_nd : NoDup (keys (r_members V r));
+    i_ndd : NoDup (r_deleted V r);
+    i_incl : incl (r_deleted V r) (keys (r_members V r));
+    i_perm : Permutation (r_entries V r) (flat_map (vnodes (r_replicas V r)) (keys (r_members V r)));
+    i_sorted : r_sorted V r = true -> StronglySorted entry_le (r_entries V r);
+    i_R : (1 <= r_replicas V r)%nat }.
+
+  Lemma lkeys_In : forall r k, In k (lkeys r) <-> live r k <> None.
+  Proof.
+    intros. unfold lkeys, live. rewrite filter_In, negb_true_iff, <- mget_keys.
+    destruct (smem k (r_deleted V r)); split; try tauto; try congruence. intros [_ H]; congruence.
+  Qed.
+
+  Lemma lkeys_NoDup : forall r, Inv r -> NoDup (lkeys r).
+  Proof. intros r I. apply NoDup_filter'. apply I. Qed.
+
+  Lemma inv_new : forall R P, (1 <= R)%nat -> Inv (new V R P).
+  Proof.
+    intros. constructor; simpl; auto.
+    - constructor.
+    - constructor.
+    - intros ? [].
+    - discriminate.
+  Qed.
+
+  Lemma inv_insert : forall r k v, Inv r -> Inv (insert r k v).
+  Proof.
+    intros r k v I. destruct I as [nd ndd inc perm srt HR]. unfold Model.insert.
+    destruct (smem k (r_deleted V r)) eqn:D.
+    - apply smem_In in D. assert (In k (keys (r_members V r))) as Hk by auto.
+      constructor; simpl; rewrite ?keys_mset_has; auto.
+      + apply NoDup_filter'. auto.
+      + intros x Hx. apply sdel_In in Hx. apply inc. tauto.
+    - unfold Model.mhas. destruct (mget (r_members V r) k) eqn:G.
+      + assert (In k (keys (r_members V r))) as Hk by (apply mget_keys; congruence).
+        constructor; simpl; rewrite ?keys_mset_has; auto.
+      + assert (~ In k (keys (r_members V r))) as Hk by (apply mget_none; auto).
+        constructor; simpl; rewrite ?keys_mset_new; auto.
+        * eapply Permutation_NoDup; [apply Permutation_cons_append|]. constructor; auto.
+        * apply incl_appl. auto.
+        * rewrite flat_map_app. simpl. rewrite app_nil_r. apply Permutation_app; auto.
+        * discriminate.
+  Qed.
+
+  Lemma inv_remove : forall r k, Inv r -> Inv (remove r k).
+  Proof.
+    intros r k I. unfold Model.remove, Model.mhas. destruct (mget (r_members V r) k) eqn:G; auto.
+    destruct I as [nd ndd inc perm srt HR].
+    constructor; simpl; auto.
+    - apply sadd_NoDup. auto.
+    - intros x Hx. apply sadd_In in Hx. destruct Hx as [->|Hx]; auto. apply mget_keys. congruence.
+  Qed.
+
+  Lemma inv_sweep : forall r, Inv r -> Inv (sweep V r).
+  Proof.
+    intros r I. destruct I as [nd ndd inc perm srt HR].
+    constructor; simpl; auto.
+    - rewrite (keys_filter (fun k => negb (smem k (r_deleted V r)))). apply NoDup_filter'. auto.
+    - constructor.
+    - intros ? [].
+    - rewrite (keys_filter (fun k => negb (smem k (r_deleted V r)))).
+      rewrite <- filter_flat_vnodes. apply Permutation_filter'. auto.
+    - intro S. apply sorted_filter. auto.
+  Qed.
+
+  Lemma inv_sort : forall r, Inv r -> Inv (sort_entries V r).
+  Proof.
+    intros r I. destruct I as [nd ndd inc perm srt HR].
+    constructor; simpl; auto.
+    - rewrite isort_perm. auto.
+    - intros _. apply isort_sorted.
+  Qed.
+
+  Lemma live_sweep : forall r k, live (sweep V r) k = live r k.
+  Proof.
+    intros. unfold live. simpl.
+    rewrite (mget_filter (fun k => negb (smem k (r_deleted V r)))).
+    destruct (smem k (r_deleted V r)); auto.
+  Qed.
+
+  Lemma prepare_spec : forall r, Inv r ->
+    Inv (prepare V r) /\ r_deleted V (prepare V r) = [] /\ StronglySorted entry_le (r_entries V (prepare V r))
+    /\ (forall k, live (prepare V r) k = live r k)
+    /\ r_replicas V (prepare V r) = r_replicas V r /\ r_probes V (prepare V r) = r_probes V r.
+  Proof.
+    intros r I. unfold Model.prepare.
+    set (r1 := match r_deleted V r with [] => r | _ :: _ => sweep V r end).
+    assert (Inv r1 /\ r_deleted V r1 = [] /\ (forall k, live r1 k = live r k)
+            /\ r_replicas V r1 = r_replicas V r /\ r_probes V r1 = r_probes V r) as [I1 [D1 [L1 [R1 P1]]]].
+    { subst r1. destruct (r_deleted V r) eqn:D.
+      - repeat match goal with |- _ /\ _ => split end; auto.
+      - repeat match goal with |- _ /\ _ => split end; auto using inv_sweep, live_sweep. }
+    clearbody r1. destruct (r_sorted V r1) eqn:S.
+    - repeat match goal with |- _ /\ _ => split end; auto. apply I1. auto.
+    - repeat match goal with |- _ /\ _ => split end; auto using inv_sort. simpl. apply isort_sorted.
+  Qed.
+
+  (* Len() = 0 exactly when there is no live member *)
+  Lemma len_zero : forall r, Inv r -> (len V r = 0%Z <-> forall k, live r k = None).
+  Proof.
+    intros r I. destruct I as [nd ndd inc perm srt HR]. unfold Model.len, live.
+    assert (length (r_members V r) = length (keys (r_members V r))) as EL by (unfold keys; rewrite map_length; auto).
+    pose proof (NoDup_incl_length ndd inc) as L1.
+    split.
+    - intros HZ k.
+      assert (incl (keys (r_members V r)) (r_deleted V r)) as inc2 by (apply NoDup_length_incl; auto; lia).
+      destruct (smem k (r_deleted V r)) eqn:D; auto.
+      apply mget_none. intro Hk. apply inc2 in Hk. apply smem_In in Hk. congruence.
+    - intros HL.
+      assert (incl (keys (r_members V r)) (r_deleted V r)) as inc2.
+      { intros k Hk. specialize (HL k). destruct (smem k (r_deleted V r)) eqn:D.
+        - apply smem_In; auto.
+        - apply mget_keys in Hk. contradiction. }
+      pose proof (NoDup_incl_length nd inc2). lia.
+  Qed.
+
+  Lemma entries_canon : forall r ks, Inv r -> r_deleted V r = [] -> StronglySorted entry_le (r_entries V r) ->
+    NoDup ks -> (forall k, In k ks <-> live r k <> None) ->
+    r_entries V r = canon (r_replicas V r) ks.
+  Proof.
+    intros r ks I D S ND HIn. unfold canon.
+    apply sorted_perm_unique; auto using isort_sorted.
+    rewrite isort_perm. rewrite (i_perm _ I). apply Permutation_flat_map.
+    apply NoDup_Permutation; auto. apply I.
+    intro k. rewrite HIn. unfold live. rewrite D. simpl. symmetry. apply mget_keys.
+  Qed.
+
+  (* Lookup as a function of (replicas, probes, member map): nothing else of the ring's state matters *)
+  Definition ideal_lookup (R P : nat) (f : key -> option V) (ks : list key) (k : key) : lres V :=
+    match ks with
+    | [] => LNone
+    | _ :: _ =>
+        match pick_key P (canon R ks) k with
+        | None => LPanic
+        | Some ok => LSome (match f ok with Some v => v | None => zeroV end)
+        end
+    end.
+
+  Lemma lookup_ideal : forall r ks k, Inv r -> NoDup ks -> (forall k, In k ks <-> live r k <> None) ->
+    snd (lookup r k) = ideal_lookup (r_replicas V r) (r_probes V r) (live r) ks k.
+  Proof.
+    intros r ks k I ND HIn. unfold Model.lookup.
+    destruct (Z.eqb (len V r) 0) eqn:Z0.
+    - apply Z.eqb_eq in Z0. rewrite (len_zero r I) in Z0.
+      destruct ks as [|k0 ks]; simpl; auto.
+      exfalso. apply (HIn k0); simpl; auto.
+    - apply Z.eqb_neq in Z0.
+      assert (ks <> []) as Hne.
+      { intro E. subst. apply Z0. apply len_zero; auto. intro k'.
+        destruct (live r k') eqn:L; auto. exfalso. apply (HIn k'). congruence. }
+      destruct (prepare_spec r I) as [I2 [D2 [S2 [L2 [R2 P2]]]]].
+      simpl.
+      assert (r_entries V (prepare V r) = canon (r_replicas V r) ks) as ->.
+      { rewrite <- R2. apply entries_canon; auto. intro k'. rewrite L2. auto. }
+      rewrite P2. unfold ideal_lookup. destruct ks as [|k0 ks]; [congruence|].
+      destruct (pick_key (r_probes V r) (canon (r_replicas V r) (k0 :: ks)) k) as [ok|]; auto.
+      f_equal. specialize (L2 ok). unfold live in L2 at 1. rewrite D2 in L2. simpl in L2. rewrite L2. auto.
+  Qed.
+
+  Lemma ideal_lookup_ext : forall R P f g ks k, (forall x, f x = g x) ->
+    ideal_lookup R P f ks k = ideal_lookup R P g ks k.
+  Proof.
+    intros. unfold ideal_lookup. destruct ks; auto. destruct (pick_key _ _ _); auto. rewrite H. auto.
+  Qed.
+
+  (* history independence, state form: two reachable rings with the same live members answer alike *)
+  Lemma lookup_live_ext : forall ra rb k, Inv ra -> Inv rb ->
+    r_replicas V ra = r_replicas V rb -> r_probes V ra = r_probes V rb ->
+    (forall x, live ra x = live rb x) ->
+    snd (lookup ra k) = snd (lookup rb k).
+  Proof.
+    intros ra rb k Ia Ib HR HP HL.
+    rewrite (lookup_ideal ra (lkeys ra) k Ia (lkeys_NoDup ra Ia) (lkeys_In ra)).
+    rewrite (lookup_ideal rb (lkeys ra) k Ib (lkeys_NoDup ra Ia)).
+    - rewrite HR, HP. apply ideal_lookup_ext. auto.
+    - intro x. rewrite <- HL. apply lkeys_In.
+  Qed.
+
+  (* the owner is a live member and the answer is its stored value; none iff no live member; no panic *)
+  Lemma lookup_owner : forall r k, Inv r ->
+    (snd (lookup r k) = LNone /\ forall x, live r x = None)
+    \/ (exists ok v, live r ok = Some v /\ snd (lookup r k) = LSome v).
+  Proof.
+    intros r k I.
+    rewrite (lookup_ideal r (lkeys r) k I (lkeys_NoDup r I) (lkeys_In r)).
+    unfold ideal_lookup. destruct (lkeys r) as [|k0 ks] eqn:E.
+    - left. split; auto. intro x. destruct (live r x) eqn:L; auto.
+      exfalso. assert (In x (lkeys r)) as H by (apply lkeys_In; congruence). rewrite E in H. contradiction.
+    - right. rewrite <- E.
+      assert (canon (r_replicas V r) (lkeys r) <> []) as Hne.
+      { apply canon_nonempty. apply I. rewrite E. discriminate. }
+      destruct (pick_key_ok (r_probes V r) _ k Hne) as [e [He ->]].
+      apply canon_In in He. apply lkeys_In in He.
+      destruct (live r (e_key e)) as [v|] eqn:L; [|congruence].
+      exists (e_key e), v. auto.
+  Qed.
+
+  (* ---------- steps and histories ---------- *)
+  Definition fstep (f : key -> option V) (o : op V) (k : key) : option V :=
+    match o with
+    | OInsert k0 v => if key_eqb k k0 then Some v else f k
+    | ORemove k0 => if key_eqb k k0 then None else f k
+    | _ => f k
+    end.
+
+  Lemma lookup_fst : forall r k, fst (lookup r k) = r \/ fst (lookup r k) = prepare V r.
+  Proof. intros. unfold Model.lookup. destruct (Z.eqb (len V r) 0); simpl; auto. Qed.
+
+  Lemma inv_step : forall r o, Inv r -> Inv (fst (step r o)).
+  Proof.
+    intros r o I. destruct o; simpl; auto using inv_insert, inv_remove.
+    destruct (lookup r k) as [r' res] eqn:E. simpl.
+    destruct (lookup_fst r k) as [H|H]; rewrite E in H; simpl in H; subst; auto.
+    apply prepare_spec. auto.
+  Qed.
+
+  Lemma step_params : forall r o, r_replicas V (fst (step r o)) = r_replicas V r /\ r_probes V (fst (step r o)) = r_probes V r.
+  Proof.
+    intros r o. destruct o; simpl; auto.
+    - unfold Model.insert. destruct (smem k (r_deleted V r)); simpl; auto. destruct (mhas (r_members V r) k); simpl; auto.
+    - unfold Model.remove. destruct (mhas (r_members V r) k); simpl; auto.
+    - destruct (lookup r k) as [r' res] eqn:E. simpl.
+      unfold Model.lookup in E. destruct (Z.eqb (len V r) 0); inversion E; subst; auto.
+      unfold Model.prepare. destruct (r_deleted V r); simpl; destruct (r_sorted V r); simpl; auto.
+  Qed.
+
+  Lemma live_step : forall r o k, Inv r -> live (fst (step r o)) k = fstep (live r) o k.
+  Proof.
+    intros r o k I. destruct o as [k0 v|k0|q|]; simpl; auto.
+    - unfold Model.insert, live. destruct (smem k0 (r_deleted V r)) eqn:D; simpl.
+      + rewrite smem_sdel, mget_mset. destruct (key_eqb k k0) eqn:E; simpl; auto.
+      + unfold Model.mhas. destruct (mget (r_members V r) k0) eqn:G; simpl; rewrite mget_mset;
+          destruct (key_eqb k k0) eqn:E; auto; apply key_eqb_eq in E; subst; rewrite D; auto.
+    - unfold Model.remove, live, Model.mhas. destruct (mget (r_members V r) k0) eqn:G; simpl.
+      + rewrite smem_sadd. destruct (key_eqb k k0); simpl; auto.
+      + destruct (key_eqb k k0) eqn:E; auto. apply key_eqb_eq in E. subst. rewrite G.
+        destruct (smem k0 (r_deleted V r)); auto.
+    - destruct (lookup r q) as [r' res] eqn:E. simpl.
+      destruct (lookup_fst r q) as [H|H]; rewrite E in H; simpl in H; subst; auto.
+      apply prepare_spec. auto.
+  Qed.
+
+  Lemma run_cons : forall r o ops, fst (run r (o :: ops)) = fst (run (fst (step r o)) ops).
+  Proof.
+    intros. simpl. destruct (step r o) as [r1 u]. simpl. destruct (run r1 ops). auto.
+  Qed.
+
+  Lemma inv_run : forall ops r, Inv r -> Inv (fst (run r ops)).
+  Proof.
+    induction ops as [|o ops IH]; intros r I; auto.
+    rewrite run_cons. apply IH. apply inv_step. auto.
+  Qed.
+
+  Lemma run_params : forall ops r, r_replicas V (fst (run r ops)) = r_replicas V r /\ r_probes V (fst (run r ops)) = r_probes V r.
+  Proof.
+    induction ops as [|o ops IH]; intros r; auto.
+    rewrite run_cons. destruct (IH (fst (step r o))) as [A B]. destruct (step_params r o) as [C D]. split; congruence.
+  Qed.
+
+  Lemma live_run : forall ops r f, Inv r -> (forall k, live r k = f k) ->
+    forall k, live (fst (run r ops)) k = fold_left (fun g o => fstep g o) ops f k.
+  Proof.
+    induction ops as [|o ops IH]; intros r f I HL k; simpl fold_left; auto.
+    rewrite run_cons. apply IH. apply inv_step; auto.
+    intro x. rewrite live_step; auto. unfold fstep. destruct o; rewrite ?HL; auto.
+  Qed.
+
+  Lemma live_new : forall R P k, live (new V R P) k = None.
+  Proof. intros. reflexivity. Qed.
+
+  Lemma fresh_run : forall R P ms,
+    fresh hash V R P ms = fst (run (new V R P) (map (fun kv => OInsert (fst kv) (snd kv)) ms)).
+  Proof.
+    intros. unfold fresh. generalize (new V R P).
+    induction ms as [|[k v] ms IH]; intro r; auto.
+    simpl fold_left. rewrite IH. simpl map. rewrite run_cons. auto.
+  Qed.
+End P.
